@@ -155,8 +155,8 @@ func (h *Hist) reopenCopyPrefix(when string, lower int) {
 		h.Failf("%s: after an I/O failure the reopened copy of the directory cannot be read: %v", when, rerr)
 	}
 	for p := len(h.States) - 1; p >= 0; p-- {
-		if got.Equal(h.States[p]) {
-			if p < lower && !got.Equal(h.States[lower]) {
+		if storeEqual(got, h.States[p]) {
+			if p < lower && !storeEqual(got, h.States[lower]) {
 				h.Failf("%s: after an I/O failure the directory reopens to the state after %d batches, but a successful round had covered %d (a good file was replaced or lost)", when, p, lower)
 			}
 			return
